@@ -270,7 +270,7 @@ func LiveMPD(a *asset, mpdName string, cfg *ResponseConfig, drmCfg *drm.DrmConfi
 				return nil, fmt.Errorf("adjustASForTimelineTime: %w", err)
 			}
 			if asIdx == 0 {
-				mpd.PublishTime = m.ConvertToDateTime(calcPublishTime(cfg, se.lsi))
+				mpd.PublishTime = publishTimeFromS(calcPublishTime(cfg, se.lsi))
 			}
 		case timeLineNumber:
 			err := adjustAdaptationSetForTimelineNr(se, as)
@@ -282,7 +282,7 @@ func LiveMPD(a *asset, mpdName string, cfg *ResponseConfig, drmCfg *drm.DrmConfi
 				*as.SegmentTemplate.StartNumber += uint32(cfg.getStartNr())
 			}
 			if asIdx == 0 {
-				mpd.PublishTime = m.ConvertToDateTime(calcPublishTime(cfg, se.lsi))
+				mpd.PublishTime = publishTimeFromS(calcPublishTime(cfg, se.lsi))
 			}
 		case segmentNumber:
 			err := adjustAdaptationSetForSegmentNumber(cfg, a, as)
@@ -713,6 +713,12 @@ func calcPublishTime(cfg *ResponseConfig, lsi lastSegInfo) float64 {
 	default:
 		panic("liveMPD type not yet implemented")
 	}
+}
+
+// publishTimeFromS converts a change instant in seconds to a DateTime with millisecond resolution.
+// The instant is rounded up, since the MPD for a millisecond-resolution clock changes at the first millisecond at or after it.
+func publishTimeFromS(seconds float64) m.DateTime {
+	return m.ConvertToDateTimeMS(int64(math.Ceil(seconds*1000 - timeCompareEpsilonS*1000)))
 }
 
 // lastSegAvailTimeS returns the availabilityTime of the last segment,
